@@ -8,7 +8,7 @@ Extraction "model.ml"
   Token.pack Token.unpack Token.tok_new Token.same_source_as Token.increment_version
   Token.increment_sub_id Token.forget_sub_id Token.factory_new Token.factory_take Token.tok_eqb
   PostAction.pa_bitor PostAction.pa_bitor_assign PostAction.pa_code PostAction.pa_of_code
-  Env.int_of_code Env.mode_of_code Loop.run Loop.trace_of Loop.default_script
+  Env.int_of_code Env.mode_of_code Env.wh_next_deadline Loop.timer_register Loop.timer_unregister Loop.timer_reregister Loop.run Loop.trace_of Loop.default_script
   Transient.t_run Transient.t_map_some Transient.proto_ok Transient.f7_free Transient.all_ok Transient.t_init
   Signals.s_init Signals.s_step Timeout.eff_timeout
   ConcPing.cp_init ConcPing.cp_step ConcPing.wf_prog
